@@ -55,6 +55,9 @@ def cases(d):
     g = gen.G(d, FIELDS, {}, mul_max_w=3)
     nblocks = d.randint(2, 4)
     names = ["c%d" % i for i in range(nblocks)]
+    if d.chance(15):
+        # a block name that merely begins like the library's private attributes (_int_field_info ...)
+        names[d.randint(0, nblocks - 1)] = d.choice(["_interval_c", "_internal_c", "_c"])
     # every level accepts off=(): block names switched off at the END of the constructor (the SystemVerilog
     # "relax a constraint in new()" idiom); only the most-derived __init__ acts on it
     CTOR = {"ctor_params": ["off=()"], "init_extra": ["for _n in off: getattr(self, _n).constraint_mode(False)"]}
